@@ -1,6 +1,7 @@
 /- C15 — bad input fails cleanly, over `UnionNode` (parsers/nodes/union.py): property theorems (only).
    Model: `Bind/Union.lean`; helper lemmas: `Proofs/C15Union.lean`; data: `Proofs/C15Witness.lean`. -/
 import XsdataModel.Proofs.C15Union
+import XsdataModel.Proofs.C15UnionExt
 import XsdataModel.Proofs.C15Witness
 
 namespace Props.C15
@@ -54,6 +55,22 @@ this is one more structural descent into the children per candidate class, so th
 is again a total function (accepted without `partial`, no fuel): it cannot hang. -/
 theorem parse_total_union (e : BEnv) (Γ : Ctx) (cfg : ParserConfig) (c : ClassId) (t : Tree) :
     ∃ r, parseRootU e Γ cfg c t = r := ⟨_, rfl⟩
+
+/-- **union_model_extends_parse.** The parser with `UnionNode` is a conservative extension of the
+one the other properties reason about: for every universe, configuration, class and tree, either
+the old model stops with `unsupported "union node"`, or both give the same result (same value,
+same warning count, same error).  So every theorem about `parseRoot` holds of `parseRootU` on the
+documents the old model covers, and `parseRootU` answers in addition where it stopped. -/
+theorem union_model_extends_parse (e : BEnv) (Γ : Ctx) (cfg : ParserConfig) (c : ClassId) (t : Tree) :
+    parseRoot e Γ cfg c t = .error (.unsupported "union node") ∨ parseRootU e Γ cfg c t = parseRoot e Γ cfg c t :=
+  parseRootU_ext e Γ cfg c t
+
+/-- both sides of `union_model_extends_parse` occur: a document without union fields, one with -/
+example :
+    parseRootU Witness.env Witness.ctx {} "Root".toList Witness.docValid
+      = parseRoot Witness.env Witness.ctx {} "Root".toList Witness.docValid ∧
+    parseRoot Witness.env Witness.uctx {} Witness.Holder Witness.uDocInt = .error (.unsupported "union node") :=
+  ⟨rfl, rfl⟩
 
 /-! ## what `UnionNode.bind` computes -/
 
